@@ -8,7 +8,7 @@
    its byte-order conversions; routing is not even a parameter of the run, only of who receives an
    emission (C03_every_delivery). *)
 From DV Require Import Lib.Base Wire.HeaderEdit Stamp.Stamp Spec.StampSpec Gen.StampTables
-  Proofs.StampFields Proofs.StampNames Proofs.StampInv Proofs.StampMain Proofs.StampTie.
+  Proofs.Utf8Proofs Proofs.CodecWf Proofs.CodecRoundtrip Proofs.CodecMessage Proofs.WireClean Proofs.StampFields Proofs.StampNames Proofs.StampShift Proofs.StampBytes Proofs.StampInv Proofs.StampMain Proofs.StampTie.
 From Coq Require Import ZArith.
 Local Open Scope N_scope.
 
@@ -47,24 +47,24 @@ Definition C03_full_statement : Prop := full_statement.
        go to the writer only (scope SSelf);
    (2) what a connection without a unique name writes is shown to monitors only, under ":not.active.yet". *)
 Theorem C03_sender_partial :
-  forall max_completed machine_id send_allowed driver reads_args on_disconnect,
+  forall max_completed machine_id send_allowed driver reads_args on_disconnect activatable granted,
     (forall b c m, Forall dmsg_wf (driver b c m)) ->
     (forall b c, Forall dmsg_wf (on_disconnect b c)) ->
     forall h, Forall event_ok h ->
-      trace_ok false (trace_of max_completed machine_id send_allowed driver reads_args on_disconnect h).
+      trace_ok false (trace_of max_completed machine_id send_allowed driver reads_args on_disconnect activatable granted h).
 Proof. exact sender_partial. Qed.
 Print Assumptions C03_sender_partial.
 
 Theorem C03_every_delivery :
-  forall max_completed machine_id send_allowed driver reads_args on_disconnect
+  forall max_completed machine_id send_allowed driver reads_args on_disconnect activatable granted
          (route matches : conn -> smsg -> list conn) (bcast : smsg -> list conn) (monitors : list conn),
     (forall b c m, Forall dmsg_wf (driver b c m)) ->
     (forall b c, Forall dmsg_wf (on_disconnect b c)) ->
     forall h, Forall event_ok h ->
     forall pre o s m' post r,
-      trace_of max_completed machine_id send_allowed driver reads_args on_disconnect h = pre ++ TEmit o s m' :: post ->
+      trace_of max_completed machine_id send_allowed driver reads_args on_disconnect activatable granted h = pre ++ TEmit o s m' :: post ->
       In r (recipients route matches bcast monitors s m') ->
-      emit_ok false (view pre) (last_recv pre) o s m'.
+      emit_ok false (view pre) (last_recv pre) (wrote pre) o s m'.
 Proof. exact every_delivery. Qed.
 Print Assumptions C03_every_delivery.
 
@@ -82,21 +82,21 @@ Print Assumptions C03_placeholder_is_no_name.
 (* pairwise distinct over the whole history (so never reused after a disconnect), begin with ':',
    given only to a live connection that has none *)
 Theorem C03_unique :
-  forall max_completed machine_id send_allowed driver reads_args on_disconnect,
+  forall max_completed machine_id send_allowed driver reads_args on_disconnect activatable granted,
     (forall b c m, Forall dmsg_wf (driver b c m)) ->
     (forall b c, Forall dmsg_wf (on_disconnect b c)) ->
     forall h, Forall event_ok h ->
-      names_ok (trace_of max_completed machine_id send_allowed driver reads_args on_disconnect h).
+      names_ok (trace_of max_completed machine_id send_allowed driver reads_args on_disconnect activatable granted h).
 Proof. exact names_unique. Qed.
 Print Assumptions C03_unique.
 
 (* exactly: the k-th name handed out is ":1.k" *)
 Theorem C03_names_exact :
-  forall max_completed machine_id send_allowed driver reads_args on_disconnect,
+  forall max_completed machine_id send_allowed driver reads_args on_disconnect activatable granted,
     (forall b c m, Forall dmsg_wf (driver b c m)) ->
     (forall b c, Forall dmsg_wf (on_disconnect b c)) ->
     forall h, Forall event_ok h ->
-      let tr := trace_of max_completed machine_id send_allowed driver reads_args on_disconnect h in
+      let tr := trace_of max_completed machine_id send_allowed driver reads_args on_disconnect activatable granted h in
       issued tr = map name_k (seq 0 (length (issued tr))).
 Proof. exact names_exact. Qed.
 Print Assumptions C03_names_exact.
@@ -109,25 +109,84 @@ Print Assumptions C03_name_form_injective.
 (* the bound: the run cannot stop (signed overflow of the minor counter, the only fault reachable from
    a fresh bus) before INT_MAX messages have been written *)
 Theorem C03_no_fault_below_bound :
-  forall max_completed machine_id send_allowed driver reads_args on_disconnect,
+  forall max_completed machine_id send_allowed driver reads_args on_disconnect activatable granted,
     (forall b c m, Forall dmsg_wf (driver b c m)) ->
     (forall b c, Forall dmsg_wf (on_disconnect b c)) ->
     forall h, Forall event_ok h -> (sends h < INT_MAX)%Z ->
-      fault_of max_completed machine_id send_allowed driver reads_args on_disconnect h = None.
+      fault_of max_completed machine_id send_allowed driver reads_args on_disconnect activatable granted h = None.
 Proof. exact no_fault_below_bound. Qed.
 Print Assumptions C03_no_fault_below_bound.
 
 (* a registered connection that says Hello again gets an error and nothing else happens *)
 Theorem C03_second_hello_refused :
-  forall max_completed machine_id send_allowed driver reads_args on_disconnect b c n m,
+  forall max_completed machine_id send_allowed driver reads_args on_disconnect activatable granted b c n m,
     lookup c (b_conns b) = Some (Some n) ->
     str_field m F_DESTINATION = Some drv_name ->
     is_call (stamp n m) drv_name mem_hello = true ->
     exists e, In e [err_access; err_failed; err_args] /\
-      step max_completed machine_id send_allowed driver reads_args on_disconnect b (ESend c m) =
+      step max_completed machine_id send_allowed driver reads_args on_disconnect activatable granted b (ESend c m) =
       Ok b [TRecv c m; TEmit (OClient c) SMonitors (stamp n m); error_reply b c (stamp n m) e].
 Proof. exact second_hello_refused. Qed.
 Print Assumptions C03_second_hello_refused.
+
+(* ---------------- messages kept while a service is started (activation hold-and-release) ------------ *)
+(* bus_activation_send_pending_auto_activation_messages / try_send_activation_failure: whatever comes out
+   for client origin is a kept message whose writer is still connected under the name recorded when it was
+   kept; it is covered by C03_sender_partial (scope SReleased: sender = that name, content = something this
+   very connection wrote under that name) -- also in the strict reading: no exception class is involved. *)
+Theorem C03_release_only_live :
+  forall driver b name i,
+    In i (release driver b name) ->
+    match i with
+    | TEmit (OClient c) (SReleased c') m' =>
+        c' = c /\ exists h, In h (b_held b) /\ h_conn h = c /\ h_msg h = m' /\ name_of b c = Some (h_sender h)
+    | TEmit (OClient _) _ _ => False
+    | TEmit OLocal _ _ => False
+    | TEmit ODriver _ _ => True
+    | _ => False
+    end.
+Proof. exact release_only_live. Qed.
+Print Assumptions C03_release_only_live.
+
+(* ---------------- the relayed BYTES ------------------------------------------------------------------ *)
+(* The specification encoder, and well-formedness, of a value depend on its start position only modulo 8;
+   so a header field (a struct) is encoded the same wherever it ends up in the field array. *)
+Theorem C03_field_position_independent : forall le d p fs,
+  wfb le d p (VStruct fs) = wfb le d 0 (VStruct fs) /\
+  enc le (VStruct fs) p = zeros (pad_amount p 8) ++ encs le fs 0.
+Proof. exact (fun le d p fs => conj (wfb_struct_anywhere le d p fs) (enc_struct_anywhere le p fs)). Qed.
+Print Assumptions C03_field_position_independent.
+
+(* stamping keeps a message loadable (wf_msg = what the specification decoder accepts), provided the name
+   is a valid bus name and the grown header still fits the wire format's limits (2^26 for the field
+   array, 2^27 for the message) *)
+Theorem C03_relay_wellformed : forall n m,
+  wf_msg m = true -> name_ok n = true -> stamp_fits n m = true -> wf_msg (stamp n m) = true.
+Proof. exact stamp_wf_msg. Qed.
+Print Assumptions C03_relay_wellformed.
+
+(* for EVERY byte string d that is exactly one loadable message m: the bytes the bus relays under name n
+   (= what the correspondence run compares with the daemon's output byte for byte) are exactly one loadable
+   message again, which is m with n as its only SENDER, no field outside 1..9, everything else as received *)
+Theorem C03_relay_bytes : forall d m n r,
+  spec_decode_message d = Some (m, nlen d) -> wf_msg m = true ->
+  name_ok n = true -> stamp_fits n m = true ->
+  relay_bytes n d = Some r ->
+  spec_decode_message r = Some (stamp n m, nlen r) /\
+  sender_is (stamp n m) n /\ defined_only (stamp n m) /\ same_content m (stamp n m).
+Proof. exact relay_bytes_correct. Qed.
+Print Assumptions C03_relay_bytes.
+
+(* ... and they are the only byte string that decodes to that message *)
+Theorem C03_relay_bytes_unique : forall d' m', all_bytes d' = true ->
+  spec_decode_message d' = Some (m', nlen d') -> d' = spec_encode_message m'.
+Proof. exact (fun d' m' Hb H => proj1 (proj1 (spec_decode_iff d' m' Hb) H)). Qed.
+Print Assumptions C03_relay_bytes_unique.
+
+(* every name create_unique_client_name can return is a valid SENDER value *)
+Theorem C03_minted_name_valid : forall a b, nlen (unique_name a b) <= 255 -> name_ok (unique_name a b) = true.
+Proof. exact minted_name_ok. Qed.
+Print Assumptions C03_minted_name_valid.
 
 (* ---------------- tie to the C text (tables regenerated from /repo on every run) --------------------- *)
 Theorem C03_mint_matches_c : forallb sample_ok cuc_samples = true.
@@ -168,3 +227,21 @@ Example C03_ex_f13 :
   env_run f13_hist = [TConn 0; TRecv 0 f13_msg; TEmit OLocal (SSelf 0) (new_error (scrub f13_msg) err_unknown_method [])] /\
   has_no_sender (new_error (scrub f13_msg) err_unknown_method []).
 Proof. exact (conj f13_msg_is_the_replay (conj f13_trace f13_reply_has_no_sender)). Qed.
+
+(* two clients write to a service that is being started; one of them leaves and its id is taken by a new
+   client; when the service name is claimed only the other one's message is dispatched, under :1.1 *)
+Example C03_ex_hold_release : released_of (env_run hold_hist) = [(1, stamp name1 (act_msg 7))].
+Proof. exact hold_released. Qed.
+
+Example C03_ex_hold_fail :
+  flat_map (fun i => match i with
+                     | TEmit ODriver (STo c) m => if s_type m =? 3 then [(c, get_field (s_fields m) 5, get_field (s_fields m) 6)] else []
+                     | _ => [] end)
+           (env_run fail_hist) = [(1, Some (VNum 117 7), Some (VStr 115 name1))].
+Proof. exact fail_bounced. Qed.
+
+(* the byte-level theorem applies: a concrete received byte string, its relayed form *)
+Example C03_ex_relay_bytes :
+  wf_msg forged_msg = true /\ name_ok name1 = true /\ stamp_fits name1 forged_msg = true /\
+  relay_bytes name1 (spec_encode_message forged_msg) = Some (spec_encode_message (stamp name1 forged_msg)).
+Proof. vm_compute. repeat split; reflexivity. Qed.
